@@ -27,7 +27,11 @@
 //	   components and kernel maps equal, no further RADIUS record;
 //	O6 the bystander still holds everything and got no Stop.
 //
-// Parts "sched:<scenario>" (Engine B): see sched_test.go.
+// The RADIUS-Disconnect path additionally comes in every FORM a Disconnect-Request can
+// name the session by (disconnect_test.go; kindDef.forms).
+//
+// Parts "sched:<scenario>" (Engine B): see sched_test.go (pairs of concurrent termination
+// paths) and sched_res_test.go (one resource released by two paths at once).
 package c16
 
 import (
@@ -103,7 +107,7 @@ type kindDef struct {
 	// naming the session by other attributes). Every form f is crossed with every path q: {f; f,f; f,q; q,f};
 	// pairs of two different forms in the thorough tier.
 	forms func(cfg, prefix string, thorough bool) []string
-	run          func(e *kenv, k kase) result // called inside a synctest bubble
+	run   func(e *kenv, k kase) result // called inside a synctest bubble
 }
 
 // cases: quick = {p; p,p; p,q}; thorough additionally every sequence of three
@@ -265,7 +269,7 @@ func runMatrix(t *testing.T, run *report.Run, kd kindDef, envs []*kenv) {
 
 func TestCheck(t *testing.T) {
 	run := report.New("C16", "model_checking")
-	run.Rule = "complete cross product session kind x configuration x establishment prefix x termination sequence {p; p,p; p,q} on the real components with real kernel maps and a recording scripted RADIUS; after termination: address back in pool (state + destructive probe), NAT/QoS gone (API + kernel map key sets), fast path silent (real bytecode in-kernel), exactly one Stop iff Start, second termination changes nothing, bystander untouched; plus preemption-bounded schedules of concurrent termination pairs"
+	run.Rule = "complete cross product session kind x configuration x establishment prefix x termination sequence {p; p,p; p,q} on the real components with real kernel maps and a recording scripted RADIUS; after termination: address back in pool (state + destructive probe), NAT/QoS gone (API + kernel map key sets), fast path silent (real bytecode in-kernel), exactly one Stop iff Start, second termination changes nothing, bystander untouched; the RADIUS Disconnect in every session-identification form (attribute subsets through the real CoA parser); plus preemption-bounded schedules of concurrent termination pairs and of one resource (NAT block, QoS entry, pool address) released by two paths at once (state equals that after one release, counts, probe)"
 	run.Assumptions = []string{
 		"DHCP DECLINE: 'back in the pool' means no longer reserved for the client; the declined address itself is quarantined by design (RFC 2131) and must not be handed out again",
 		"dhcp.Server has no Stop/administrative-terminate/Disconnect entry point (Start needs a UDP socket): those paths do not exist for the DHCP kinds",
@@ -276,6 +280,8 @@ func TestCheck(t *testing.T) {
 		"fault configurations (.../fault=X): exactly one release step of the victim's teardown is failed by injection (allocator ReleaseIPv4/ReleaseIPv6 error, UpdateEBPFMaps callback error, RADIUS server failing the Accounting-Stop); the resource behind the failed step is exempt (for a failed Stop: exactly one attempt is required), every other clause of the oracle applies unchanged",
 		"late prefixes (DHCP DRL/DRX, pppoe IPCP-LATE, subscriber ACTIVE-LATE): the session's deadline (lease time, idle timeout) has passed and the client acts again at an instant strictly between that deadline and the next tick of the periodic sweep; computed from the real lease expiry and the sweep period, not from wall time",
 		"Accounting clause is evaluated per Acct-Session-Id: every session id that got a Start gets exactly one Stop, no Stop without a Start",
+		"RADIUS Disconnect forms: the session is named by any subset of Acct-Session-Id, User-Name, Framed-IP-Address, Calling-Station-Id that contains an attribute the CoA processor can look a session up by (it has no lookup by User-Name: a request with User-Name only is NAKed and is not a termination path); lookups by address / MAC are wired to the session tables as a deployment would; Calling-Station-Id is spelled as the NAS's own accounting records spell it",
+		"configuration radius/acct=coa: accounting of a RADIUS-initiated termination is left to radius.CoAProcessor (accounting manager attached: it documents sending the Stop with cause NAS-Request before calling the terminator); the session_terminate handler sends the Stop for every other reason. In the other configurations the handler calls StopSession for every reason",
 		"Engine B: scheduling points are lock operations, go statements and timers of the rewritten packages (radius, pppoe, subscriber, dhcp, nat, qos); ebpf.Loader code and kernel-map system calls run atomically between them; the end-of-schedule oracle runs inside the execution with scheduling off",
 	}
 	dir, err := os.MkdirTemp(filepath.Join(nativebpf.Root(), ".work"), "c16-")
